@@ -9,7 +9,7 @@ claimed = {
   "Trusted: archive/zip and encoding/xml (strict) in the oracle; XML 1.0 Char check is explicit. Schema validity is out of scope.",
   T+"seeded histories, restart as crash, map-order seam, invariant at every save event", "§5 C01"),
  "C02": ("exploration",
-  "Relationship-graph invariant (unique ids, resolvable targets, correct owner part, typed r:id/r:embed resolution) at every save event of seeded histories, including packages from an independent foreign producer with arbitrary relationship ids, extended and restarted.",
+  "Relationship-graph invariant (unique ids, resolvable targets, correct owner part, typed r:id/r:embed resolution) at every save event of seeded histories, including packages from an independent foreign producer with arbitrary relationship ids and any order of the Relationship elements, extended and restarted; template scenarios in which the template document goes on being edited after it was loaded; tables built on the side (CreateTable), given a picture, and put into the body after a save.",
   "Trusted: the foreign producer and the inspector are simulator code. Duplicate relationships to one target with different ids are legal OPC and not flagged.",
   T+"seeded histories over foreign-producer and own packages, restart as crash, invariant at every save event", "§5 C02"),
  "C05": ("fault_enumeration",
@@ -17,7 +17,7 @@ claimed = {
   "Trusted: the kernel's RLIMIT_FSIZE/ENOSPC behaviour as a stand-in for every failing write(2); the independent ZIP reader in /verif/inspect. Not covered: errors surfaced only by close(2)/fsync.",
   T+"per-byte write-fault enumeration", "§5 C05, §3.5"),
  "C07": ("exploration",
-  "Multi-client simulation: the same per-document operation lists are executed alone, interleaved on one goroutine, and as goroutines under a seeded baton scheduler in the -race build; every operation result, accessor result and canonical package must equal the solo run, bytes handed out by a save must never change afterwards, and the race log must be empty. Sampled over histories and schedules.",
+  "Multi-client simulation: the same per-document operation lists are executed alone, interleaved on one goroutine, and as goroutines under a seeded baton scheduler in the -race build; every operation result, accessor result and canonical package must equal the solo run, bytes handed out by a save must never change afterwards, and the race log must be empty. Some documents are executed alone in a fresh process as well; in some cases documents of different tasks start from ONE producer file that each task opens for itself. File-system calls, ZIP entry boundaries, lock operations (RWMutex with writer preference, Mutex, Once, WaitGroup), channel receives/sends and preemption points inside library functions are yield points of the scheduler. Sampled over histories and schedules.",
   "Trusted: the Go race detector (it misses a given race in a few percent of executions; replays of race violations are tried three times). The listed process-wide-registry findings are probed by witnesses; the search lane keeps notes and lists to one document per case.",
   T+"seeded multi-task scheduler (futex baton invisible to the race detector), solo/interleaved/concurrent differential, race detector", "§5 C07, §3.3"),
  "C13": ("exploration",
